@@ -2,6 +2,7 @@ import CgtModel.Report
 import CgtModel.Lemmas.Offsets
 import CgtModel.Lemmas.Cost
 import CgtModel.Lemmas.Prepass
+import CgtModel.Props.Formulas
 /-! # C11 — capital returns and accumulations move cost by exactly their amount
 
 Statement: a capital return lowers, an accumulation raises, the allowable expenditure of the security by
